@@ -6,6 +6,7 @@ use crate::h::guard;
 use crate::json::*;
 use crate::world::*;
 use gecs::prelude::*;
+use gecs::error::EcsError;
 use std::collections::hash_map::DefaultHasher;
 use std::collections::{HashMap, HashSet};
 use std::hash::{Hash, Hasher};
@@ -45,6 +46,19 @@ sel_ok!(Aq);
 sel_ok!(Ar);
 sel_ok!(Aw);
 
+/// A second world type whose archetype ids (9, 254) are not declared in VW.
+mod xw {
+    use gecs::prelude::*;
+    pub struct Xb(pub u8);
+    ecs_world! {
+        ecs_name!(XW);
+        #[archetype_id(9)]
+        ecs_archetype!(X9, Xb);
+        #[archetype_id(254)]
+        ecs_archetype!(X254, Xb);
+    }
+}
+
 fn typed_checks<A: AOps + SelOk>(any: EntityAny) -> (bool, bool, bool, bool)
 where
     Entity<A>: TryFrom<EntityAny>,
@@ -78,6 +92,9 @@ pub fn run(input: &str, out: &mut dyn Write) -> u64 {
         let gen = ((v[2] as u32) << 16) | v[3] as u32;
         let fr = EntityAny::from_raw((key, gen));
         let mut o = vec![("i", ji(n)), ("from_raw", J::B(fr.is_ok()))];
+        if let Err(e) = &fr {
+            o.push(("errors_ok", J::B(*e == EcsError::InvalidRawEntity)));
+        }
         if let Ok(any) = fr {
             let raw_rt = any.raw() == (key, gen) && EntityAny::from_raw(any.raw()).unwrap() == any;
             o.push(("raw_rt", J::B(raw_rt)));
@@ -103,6 +120,17 @@ pub fn run(input: &str, out: &mut dyn Write) -> u64 {
             o.push(("sel_ent_faithful", J::B(se_faithful)));
             let sid = SelectArchetype::try_from(any.archetype_id());
             o.push(("sel_id", J::B(sid.is_ok())));
+            // failing conversions must fail AS DOCUMENTED: a type mismatch is InvalidEntityType
+            let mut errs_ok = true;
+            macro_rules! err_is_type { ($r:expr) => { if let Err(e) = $r { if e != EcsError::InvalidEntityType { errs_ok = false; } } }; }
+            err_is_type!(Entity::<Ap>::try_from(any));
+            err_is_type!(Entity::<Aq>::try_from(any));
+            err_is_type!(Entity::<Ar>::try_from(any));
+            err_is_type!(Entity::<Aw>::try_from(any));
+            err_is_type!(SelectEntity::try_from(any).map(|_| ()));
+            err_is_type!(SelectArchetype::try_from(any).map(|_| ()));
+            err_is_type!(SelectArchetype::try_from(any.archetype_id()).map(|_| ()));
+            o.push(("errors_ok", J::B(errs_ok)));
             // Eq / Hash: equal to its copy, unequal to every one-field neighbour, HashSet/HashMap behave
             let copy = any;
             let nb_key = EntityAny::from_raw((key ^ 0x100, gen)).unwrap();
@@ -151,6 +179,30 @@ pub fn run(input: &str, out: &mut dyn Write) -> u64 {
     direct_for!(Aq, 1);
     direct_for!(Ar, 2);
     direct_for!(Aw, 3);
-    writeln!(out, "{}", J::O(vec![("direct", J::A(dres))]).to_line()).unwrap();
+    // direct handles whose archetype id is NOT declared in VW can only come from another world type
+    let mut derr_ok = true;
+    {
+        let mut x = xw::XW::new();
+        let e9 = x.create::<xw::X9>((xw::Xb(1),));
+        let e254 = x.create::<xw::X254>((xw::Xb(2),));
+        let foreign: [EntityDirectAny; 2] = [x.to_direct(e9).unwrap().into(), x.to_direct(e254).unwrap().into()];
+        macro_rules! derr_is_type { ($r:expr) => { match $r { Err(e) => { if e != EcsError::InvalidEntityType { derr_ok = false; } } Ok(_) => { derr_ok = false; } } }; }
+        for da in foreign {
+            derr_is_type!(EntityDirect::<Ap>::try_from(da));
+            derr_is_type!(EntityDirect::<Aq>::try_from(da));
+            derr_is_type!(EntityDirect::<Ar>::try_from(da));
+            derr_is_type!(EntityDirect::<Aw>::try_from(da));
+            derr_is_type!(SelectEntityDirect::try_from(da).map(|_| ()));
+        }
+        // and the declared-but-other case for the direct Select / typed conversions
+        let data = <Ap as AOps>::make(&[5]);
+        let t = <Ap as AOps>::h_create(&mut w, data, 0);
+        let e = Entity::<Ap>::try_from(EntityAny::from_raw(t).unwrap()).unwrap();
+        let da: EntityDirectAny = w.to_direct(e).unwrap().into();
+        derr_is_type!(EntityDirect::<Aq>::try_from(da));
+        derr_is_type!(EntityDirect::<Ar>::try_from(da));
+        if SelectEntityDirect::try_from(da).is_err() { derr_ok = false; }
+    }
+    writeln!(out, "{}", J::O(vec![("direct", J::A(dres)), ("direct_errors_ok", J::B(derr_ok))]).to_line()).unwrap();
     n
 }
